@@ -1,11 +1,15 @@
-(* Model/C12_Iso.v — datetime.isoformat() and the part of iso8601.parse_date that reads
-   isoformat-shaped text (library behaviour, modelled; tied by correspondence).
+(* Model/C12_Iso.v — datetime.isoformat() and iso8601.parse_date (library behaviour, modelled; tied by correspondence).
+   Two parsers: [iso_parse_shape], a direct reader of isoformat-shaped text (the round-trip theorem is proved on it), and
+   [iso_parse_re], the library's own regular expression (Gen/C12_Iso8601.v, regenerated from the installed iso8601) run
+   by the regex engine of Base/Regex.v, for every other string: date only, basic format, 'Z', +hh, +hhmm, fractions of any
+   length, comma.  [iso_parse] = the first where it applies, else the second.
    Shape modelled:  DDDD-DD-DD ('T'|' ') DD:DD:DD [('.'|',') D{1,9}] [ 'Z' | ('+'|'-') DD:DD ]
    and, to cover isoformat() of sub-minute offsets, the same followed by ":DD[.DDDDDD]"
    (which the library's regex rejects).  Anything else: [Exn OtherError] = not modelled.
    Definitions only. *)
 From Coq Require Import String.
-Require Import OV.Base.Bytes OV.Base.Py.
+Require Import OV.Base.Bytes OV.Base.Py OV.Base.Regex.
+Require Import OV.Gen.C12_Iso8601.
 Require Import OV.Model.C12_Calendar OV.Model.C12_Prim.
 Open Scope Z_scope.
 
@@ -112,7 +116,7 @@ Definition parse_tz (rest : str) : option (res tzinfo) :=
   | _ => None
   end.
 
-Definition iso_parse (s : str) : res dt :=
+Definition iso_parse_shape (s : str) : res dt :=
   match s with
   | y1 :: y2 :: y3 :: y4 :: 45%N :: m1 :: m2 :: 45%N :: d1 :: d2 :: sep :: h1 :: h2 :: 58%N :: i1 :: i2 :: 58%N :: s1 :: s2 :: rest =>
       if ((sep =? 84) || (sep =? 32))%N then
@@ -135,4 +139,77 @@ Definition iso_parse (s : str) : res dt :=
         end
       else unmodelled
   | _ => unmodelled
+  end.
+
+(* ---------------------------------------------------------------- the library's regular expression *)
+Fixpoint strip_zeros (s : str) : str := match s with 48%N :: t => strip_zeros t | _ => s end.
+Definition pow10 (k : nat) : Z := Z.pow 10 (Z.of_nat k).
+
+(* int(Decimal("0." + digits) * Decimal("1000000.0")) under the default decimal context (28 significant digits,
+   ROUND_HALF_EVEN): exact when the coefficient has at most 28 digits, else rounded to 28 digits first; then truncated *)
+Definition frac_us (ds : str) : option Z :=
+  match num ds with
+  | None => None
+  | Some c =>
+      let k := length ds in
+      let n := length (strip_zeros ds) in
+      if Nat.leb n 28 then Some (c * 1000000 / pow10 k)
+      else
+        let drop := (n - 28)%nat in
+        let q := c / pow10 drop in
+        let r := c mod pow10 drop in
+        let half := 5 * pow10 (drop - 1) in
+        let q' := if (half <? r) || ((r =? half) && Z.odd q) then q + 1 else q in
+        Some (q' * pow10 drop * 1000000 / pow10 k)
+  end.
+
+Definition grp (s : str) (g : groups) (i : nat) : option str := group_text s g i.
+Definition grp_num (s : str) (g : groups) (i : nat) (dflt : Z) : option Z :=
+  match grp s g i with Some t => num t | None => Some dflt end.
+Definition first_some {A} (a b : option A) : option A := match a with Some x => Some x | None => b end.
+
+Definition iso_tz (s : str) (g : groups) : option (res tzinfo) :=
+  match grp s g ig_timezone with
+  | None => Some (Ok utc_tz)
+  | Some [90%N] => Some (Ok utc_tz)
+  | Some _ =>
+      match grp s g ig_tz_sign, grp_num s g ig_tz_hour 0, grp_num s g ig_tz_minute 0 with
+      | Some [sg], Some h, Some m =>
+          (* FixedOffset(+-h, +-m): timedelta(hours, minutes) must lie strictly inside (-24h, 24h) *)
+          let mins := h * 60 + m in
+          if mins <? 1440 then
+            Some (Ok (mkTz ((if (sg =? 45)%N then -1 else 1) * mins * US_PER_MIN) (Some (sg :: fmt2 h ++ [c_colon] ++ fmt2 m))))
+          else Some (Exn ValueError)
+      | _, _, _ => None
+      end
+  end.
+
+Definition iso_parse_re (s : str) : res dt :=
+  match re_match iso8601_re s with
+  | None => Exn ValueError
+  | Some (_, g) =>
+      let monthb := grp s g ig_month in
+      let dayany := first_some (grp s g ig_day) (grp s g ig_daydash) in
+      match monthb, dayany with
+      | Some _, None => Exn ValueError               (* the look-ahead: no YYYYMM *)
+      | _, _ =>
+        let month := match monthb with Some t => num t | None => grp_num s g ig_monthdash 1 end in
+        let day := match grp s g ig_day with Some t => num t | None => grp_num s g ig_daydash 1 end in
+        let us := match grp s g ig_second_fraction with Some t => frac_us t | None => Some 0 end in
+        match grp_num s g ig_year 0, month, day, grp_num s g ig_hour 0, grp_num s g ig_minute 0, grp_num s g ig_second 0, us, iso_tz s g with
+        | Some y, Some mo, Some d, Some h, Some mi, Some sec, Some u, Some (Ok z) =>
+            match mk_datetime (mkF y mo d h mi sec u) with
+            | Ok n => Ok (mkDt (wall n) (Some z))
+            | Exn e => Exn e
+            end
+        | Some _, Some _, Some _, Some _, Some _, Some _, Some _, Some (Exn e) => Exn e
+        | _, _, _, _, _, _, _, _ => unmodelled
+        end
+      end
+  end.
+
+Definition iso_parse (s : str) : res dt :=
+  match iso_parse_shape s with
+  | Exn OtherError => iso_parse_re s
+  | r => r
   end.
